@@ -42,7 +42,7 @@ def concrete(req):
     if req["srcvals"]:
         q = q * 2.0 + 1.0
     domain = (100.0, 90.0) if req["domain"] else (80.0, 90.0)
-    halo = {0: None, 1: max(domain), 2: 20.0}[req["halo"]]
+    halo = {0: None, 1: max(domain), 2: 20.0, 3: 0.0}[req["halo"]]
     kw = dict(
         z=z, profiles=prof, domain=domain, levels=[3] if req["levels"] else [2], modes=(6, 4) if req["modes"] else (8, 6),
         meas_pt=(30.0, 30.0) if req["meas_pt"] else (20.0, 30.0), srf_bg_conc=0.5 if req["bg"] else 0.0,
